@@ -28,7 +28,7 @@ ASSUMPTIONS = [
 
 def plan(tier):
     if tier == "thorough":
-        return {"shards": 16, "cases": 40000, "shard_timeout_s": 3000, "shard_budget_s": 1500}
+        return {"shards": 16, "cases": 60000, "shard_timeout_s": 3000, "shard_budget_s": 1500}
     return {"shards": 16, "cases": 8000, "shard_timeout_s": 600, "shard_budget_s": 100}
 
 
